@@ -8,6 +8,7 @@ use verif_harness::*;
 
 const DETAIL: u8 = 1;
 const WATCHDOG_MS: u64 = 4000;
+const MAX_HANGS: usize = 6;
 
 struct Ctx {
     st: Stream,
@@ -19,8 +20,12 @@ fn route_len(o: &Outcome) -> usize {
 }
 
 fn add_case(cx: &mut Ctx, family: &str, w: &World, q: &Query, extra: serde_json::Value) {
+    // every hang costs WATCHDOG_MS and leaves a spinning thread behind: after MAX_HANGS the stream stops growing
+    if cx.hangs >= MAX_HANGS {
+        return;
+    }
     let id = cx.st.next_id();
-    let o = if cx.hangs >= 6 { Outcome::status_only("Hang") } else { run_query_watchdog(w, q, WATCHDOG_MS) };
+    let o = run_query_watchdog(w, q, WATCHDOG_MS);
     if o.status == "Hang" {
         cx.hangs += 1;
     }
@@ -75,10 +80,17 @@ fn main() {
     if let Some(p) = &a.replay {
         cx.st.full = true;
         let v: serde_json::Value = serde_json::from_str(&std::fs::read_to_string(p).unwrap()).unwrap();
-        let case = &v["case"];
-        let w = world_from_json(&case["world"]);
-        let q = query_from_json(&case["query"]);
-        add_case(&mut cx, "replay", &w, &q, json!({}));
+        // {"case": c} replays one case, {"cases": [c, ...]} several (the corpus)
+        let cases: Vec<serde_json::Value> = match v.get("cases") {
+            Some(cs) => cs.as_array().unwrap().clone(),
+            None => vec![v["case"].clone()],
+        };
+        for case in &cases {
+            let w = world_from_json(&case["world"]);
+            let q = query_from_json(&case["query"]);
+            let fam = case.get("corpus").and_then(|x| x.as_str()).map(|x| format!("corpus:{}", x)).unwrap_or("replay".to_string());
+            add_case(&mut cx, &fam, &w, &q, json!({}));
+        }
         cx.st.finish();
         std::process::exit(0);
     }
@@ -91,14 +103,14 @@ fn main() {
     }
     // ---- random worlds ----
     let mut rng = Rng::new(a.seed);
-    while cx.st.next_id() < a.n {
+    while cx.st.next_id() < a.n && cx.hangs < MAX_HANGS {
         let mut r = rng.fork();
         let fam = if r.chance(3, 5) { CostFamily::TieFree } else { CostFamily::TieRich };
         let (mut w, flags) = gen_world(&mut r, fam);
         // a few queries per world (the graph is the expensive part to vary, the query the cheap one)
         let k = 1 + r.below(3);
         for _ in 0..k {
-            if cx.st.next_id() >= a.n {
+            if cx.st.next_id() >= a.n || cx.hangs >= MAX_HANGS {
                 break;
             }
             let (q, hk) = gen_query(&mut r, &mut w);
